@@ -346,10 +346,81 @@ def gen_cmp():
     return out
 
 
+def gen_strreg():
+    """string_serializable.py: default registry registrations and replace pairs; string_datetime.register_datetime_classes;
+    remove / remove_by_name bodies are pinned by shape"""
+    tree = parse("dynamic_typing/string_serializable.py")
+    names = {"IntString": "PInt", "FloatString": "PFloat", "BooleanString": "PBool", "IsoDateString": "PDate",
+             "IsoTimeString": "PTime", "IsoDatetimeString": "PDatetime"}
+    regs, reps = [], []
+    actual = {}
+    for n in tree.body:
+        if isinstance(n, ast.ClassDef):
+            for d in n.decorator_list:
+                if (isinstance(d, ast.Call) and isinstance(d.func, ast.Attribute) and d.func.attr == "add"
+                        and isinstance(d.func.value, ast.Name) and d.func.value.id == "registry"):
+                    if n.name not in names:
+                        raise Unsupported(f"unknown registered class {n.name}")
+                    regs.append(names[n.name])
+                    for kw in d.keywords:
+                        if kw.arg != "replace_types" or not isinstance(kw.value, ast.Tuple):
+                            raise Unsupported("registry.add arguments")
+                        for e in kw.value.elts:
+                            if not (isinstance(e, ast.Name) and e.id in names):
+                                raise Unsupported("replace_types element")
+                            reps.append((names[e.id], names[n.name]))
+                    if d.args:
+                        raise Unsupported("registry.add positional arguments")
+            if n.name in names:
+                at = class_const(n, "actual_type")
+                actual[n.name] = ast.unparse(at)
+    cls = find_class(tree, "StringSerializableRegistry")
+    want = {
+        "__iter__": "return iter(self.types)",
+        "__contains__": "return item in self.types",
+        "remove_by_name": "for cls in self.types[:]:\n    if cls.__name__ == name or cls.actual_type.__name__ == name:\n        self.remove(cls)",
+        "remove": "self.types.remove(cls)\nfor base, replace in list(self.replaces):\n    if replace is cls or base is cls:\n        self.replaces.remove((base, replace))",
+    }
+    for fn, body in want.items():
+        f = find_func(cls, fn)
+        got = "\n".join(ast.unparse(st) for st in f.body if not (isinstance(st, ast.Expr) and isinstance(st.value, ast.Constant)))
+        if got != body:
+            raise Unsupported(f"StringSerializableRegistry.{fn} changed: {got!r}")
+    add = ast.unparse(find_func(cls, "add"))
+    for frag in ("self.types.append(cls)", "for t in replace_types:", "self.replaces.add((t, cls))"):
+        if frag not in add:
+            raise Unsupported("StringSerializableRegistry.add changed")
+    dt = parse("dynamic_typing/string_datetime.py")
+    f = find_func(dt, "register_datetime_classes")
+    body = [ast.unparse(st) for st in f.body if not (isinstance(st, ast.Expr) and isinstance(st.value, ast.Constant))]
+    if body != ["registry.add(cls=IsoDateString)", "registry.add(cls=IsoTimeString)", "registry.add(cls=IsoDatetimeString)"]:
+        raise Unsupported("register_datetime_classes body: " + repr(body))
+    for n in dt.body:
+        if isinstance(n, ast.ClassDef) and n.name in names:
+            actual[n.name] = ast.unparse(class_const(n, "actual_type"))
+    want_actual = {"IntString": "int", "FloatString": "float", "BooleanString": "bool", "IsoDateString": "date",
+                   "IsoTimeString": "time", "IsoDatetimeString": "datetime"}
+    if actual != want_actual:
+        raise Unsupported("actual_type table: " + repr(actual))
+    # the generator consults the registry in registration order and stops at the first parser that does not raise ValueError
+    gt = parse("generator.py")
+    dtf = find_func(find_class(gt, "MetadataGenerator"), "_detect_type")
+    tail = ast.unparse(dtf.body[-1].orelse[-1].orelse[-1].orelse[-1]) if False else ast.unparse(dtf)
+    frag = "for t in self.str_types_registry:\n            try:\n                value = t.to_internal_value(value)\n            except ValueError:\n                continue\n            return t\n        return StringLiteral({value})"
+    if frag not in tail:
+        raise Unsupported("_detect_type: the string branch changed")
+    out = HEADER.format(src="dynamic_typing/string_serializable.py, string_datetime.py, generator.py")
+    out += "Definition default_registry : list pseudo := [" + "; ".join(regs) + "].\n"
+    out += "Definition default_replaces : list (pseudo * pseudo) := [" + "; ".join(f"({a}, {b})" for a, b in reps) + "].\n"
+    out += "Definition datetime_registration : list pseudo := [PDate; PTime; PDatetime].\n"
+    return out
+
+
 GENERATORS = {
     "Limits": gen_limits,
     "Labels": gen_labels,
     "Cmp": gen_cmp,
+    "StrReg": gen_strreg,
 }
 
 
